@@ -118,7 +118,7 @@ func Body(p Params, o *sx.Obs, dump func(dc *pool.DC) (total int64, free []pool.
 			vsched.MarkClosed(c.ready)
 		}
 		return c
-	}, pool.DCOptions{MaxOpenConnections: int64(p.Max), Logger: sx.LogCapture{O: o}})
+	}, pool.DCOptions{MaxOpenConnections: int64(p.Max), Logger: sx.LogCapture{O: o, Steps: true}})
 	var g sx.Group
 	cancels := map[int]context.CancelFunc{}
 	callersDone := 0
@@ -238,6 +238,54 @@ func CheckC27(p Params, o *sx.Obs, x *vsched.Sched) kit.Result {
 		thread string
 		relAt  int // event index after which the releasing caller's release started (its use-end)
 	}{}
+	// hand-overs through a waiter's channel, seen at the level of channel operations: a connection may not be sent
+	// to a waiter after its death processing completed (release() checks and sends under the pool lock, and death
+	// processing runs under the same lock, so on a correct pool every such send precedes the "Connection died" record)
+	stepOf := func(e string) int {
+		if k := strings.LastIndex(e, " step="); k >= 0 {
+			var st int
+			fmt.Sscanf(e[k:], " step=%d", &st)
+			return st
+		}
+		return -1
+	}
+	diedStep := map[int]int{}
+	for _, e := range o.Events {
+		if strings.HasPrefix(e, "log[") && strings.Contains(e, "] Connection died") {
+			if k := strings.Index(e, "conn_id="); k >= 0 {
+				var id int
+				fmt.Sscanf(e[k:], "conn_id=%d", &id)
+				if _, ok := diedStep[id]; !ok {
+					diedStep[id] = stepOf(e)
+				}
+			}
+		}
+	}
+	for _, e := range o.Events {
+		if !strings.HasPrefix(e, "log[") || !strings.Contains(e, "] Got connection for request conn_id=") {
+			continue
+		}
+		th := e[4:strings.Index(e, "]")]
+		var id int
+		fmt.Sscanf(e[strings.Index(e, "conn_id="):], "conn_id=%d", &id)
+		g := stepOf(e)
+		d, dead := diedStep[id]
+		if !dead {
+			continue
+		}
+		// the receive that produced it: the thread's last receive before the record; then the send on that channel
+		ch, rstep := -1, -1
+		for _, op := range x.ChanLog {
+			if op.Thread == th && op.Kind == 'r' && op.Step <= g && op.Step > rstep {
+				ch, rstep = op.Chan, op.Step
+			}
+		}
+		for _, op := range x.ChanLog {
+			if op.Chan == ch && op.Kind == 's' && op.Step <= rstep && d < op.Step {
+				return kit.Bad("dead-sent-to-waiter", "connection (pool id %d) whose death processing completed at step %d was sent to the waiting %s by %s at step %d", id, d, th, op.Thread, op.Step)
+			}
+		}
+	}
 	for i, e := range o.Events {
 		var n, live, id int
 		var who string
